@@ -342,8 +342,8 @@ fn main() {
     let run = Run::from_args("C08");
     let enc = Fam { alpha: if run.quick() { alphabet5(run.seed) } else { alphabet6() }, max_len: run.pick(5, 6), kind: 0, max_nulls: 0 };
     let base_alpha: Vec<X> = vec![Some(-2.0), Some(0.0), Some(1.0), Some(3.0)];
-    let tr = Fam { alpha: base_alpha.clone(), max_len: run.pick(4, 5), kind: 1, max_nulls: run.pick(2, 3) };
-    let tr2 = Fam { alpha: vec![Some(0.0), Some(1.0), Some(3.0)], max_len: run.pick(3, 4), kind: 2, max_nulls: 2 };
+    let tr = Fam { alpha: base_alpha.clone(), max_len: run.pick(4, 6), kind: 1, max_nulls: run.pick(2, 3) };
+    let tr2 = Fam { alpha: vec![Some(0.0), Some(1.0), Some(3.0)], max_len: run.pick(3, 5), kind: 2, max_nulls: 2 };
     if let Some(path) = &run.replay {
         let stored = load_replay(path).unwrap_or_else(|e| {
             eprintln!("MACHINERY-ERROR: {e}");
